@@ -75,6 +75,21 @@ func (ex *Exec) cellsStoredIn(st *State, fr *Frame, lp *Loop) []Loc {
 			switch x := in.(type) {
 			case *ssa.Store:
 				switch a := x.Addr.(type) {
+				case *ssa.FieldAddr:
+					// store into a field of a struct local kept as a value: the whole local is assigned
+					var base ssa.Value = a
+					for {
+						fa, ok := base.(*ssa.FieldAddr)
+						if !ok {
+							break
+						}
+						base = fa.X
+					}
+					if al, ok := base.(*ssa.Alloc); ok {
+						if _, isCell := fr.Regs[al].(AddrV); isCell {
+							add(Loc{Kind: LCell, Frame: fr.ID, Alloc: al, Typ: deref(al.Type())})
+						}
+					}
 				case *ssa.Alloc:
 					if _, isCell := fr.Regs[a].(AddrV); isCell || fr.Regs[a] == nil {
 						add(Loc{Kind: LCell, Frame: fr.ID, Alloc: a, Typ: deref(a.Type())})
@@ -133,8 +148,13 @@ func (ex *Exec) havocCells(st *State, fr *Frame, lp *Loop) {
 		if l.Alloc != nil && l.Alloc.Comment != "" {
 			name = "loop." + l.Alloc.Comment
 		}
-		if kindOf(l.Typ) == KStruct || kindOf(l.Typ) == KArray {
-			continue // struct/array locals live on the heap
+		if kindOf(l.Typ) == KArray {
+			continue // array locals live on the heap
+		}
+		if kindOf(l.Typ) == KStruct {
+			if _, isCell := st.Frames[l.Frame].Regs[l.Alloc].(AddrV); !isCell {
+				continue // escaping struct locals live on the heap
+			}
 		}
 		ex.storeLoc(st, l, ex.symbolic(st, name, l.Typ))
 	}
@@ -168,15 +188,16 @@ func (ex *Exec) loopEnter(st *State, frID int, lp *Loop, from *ssa.BasicBlock, k
 	}
 	// 2. find out what the loop writes (exploring its body once), then havoc exactly that
 	writes, globals, allocated := ex.discover(st, frID, lp)
-	ex.havocCells(st, fr, lp)
-	ex.applyHavoc(st, writes)
-	for g := range globals {
-		st.Globals[g] = ex.symbolic(st, "G."+g.Name(), deref(g.Type()))
-	}
+	headTop := st.Top
 	if allocated {
 		nt := ex.D.Fresh("top", SInt)
 		st.Assume(Ge(nt, st.Top))
 		st.Top = nt
+	}
+	ex.havocCells(st, fr, lp)
+	ex.applyHavocAt(st, writes, headTop)
+	for g := range globals {
+		st.Globals[g] = ex.symbolic(st, "G."+g.Name(), deref(g.Type()))
 	}
 	// 3. assume the invariants
 	if spec != nil {
@@ -232,7 +253,6 @@ func (ex *Exec) discover(st *State, frID int, lp *Loop) ([]writeRec, map[*ssa.Gl
 	ds := st.Clone()
 	ex.disc = d
 	ex.havocCells(ds, ds.Frames[frID], lp)
-	d.watermark = ex.D.n
 	ex.run(ds, frID, lp.Header, 0, nil, func(*State, []Val) {})
 	ex.disc = saved
 	ex.paths = savedPaths
@@ -262,7 +282,11 @@ func (ex *Exec) headerValidAt(t Term, watermark int) bool {
 }
 
 // applyHavoc forgets the contents of the written locations.
-func (ex *Exec) applyHavoc(st *State, writes []writeRec) {
+func (ex *Exec) applyHavoc(st *State, writes []writeRec) { ex.applyHavocAt(st, writes, st.Top) }
+
+// applyHavocAt: headTop is the watermark before the havocked code ran (objects at or below it
+// existed already; the frame of "only fresh objects written" is stated relative to it).
+func (ex *Exec) applyHavocAt(st *State, writes []writeRec, headTop Term) {
 	type agg struct {
 		all     bool
 		unknown bool
@@ -291,16 +315,16 @@ func (ex *Exec) applyHavoc(st *State, writes []writeRec) {
 	for _, name := range order {
 		a := m[name]
 		if a.kind == LCell { // ghost value that is not an array (spawn logs)
-			st.Heaps[name] = ex.D.Fresh("hv", a.sort)
+			st.Heaps[name] = ex.freshHeapVal(st, name, "hv", a.sort)
 			continue
 		}
 		cur := ex.heap(st, name, a.sort)
 		if a.all {
-			nh := ex.D.Fresh("hv:"+shortName(name), a.sort)
+			nh := ex.freshHeapVal(st, name, "hv:"+shortName(name), a.sort)
 			if !a.unknown {
 				// only objects allocated inside the loop (plus the precisely known ones) are written:
 				// everything that existed at the loop head keeps its value
-				conds := []string{fmt.Sprintf("(<= (root r) %s)", st.Top.S)}
+				conds := []string{fmt.Sprintf("(<= (root r) %s)", headTop.S)}
 				for _, r := range a.refs {
 					conds = append(conds, fmt.Sprintf("(not (= r %s))", r.S))
 				}
@@ -312,7 +336,7 @@ func (ex *Exec) applyHavoc(st *State, writes []writeRec) {
 		}
 		inner := strings.TrimSuffix(strings.TrimPrefix(a.sort, "(Array Int "), ")")
 		for _, r := range a.refs {
-			cur = Store(cur, r, ex.D.Fresh("hv", inner))
+			cur = Store(cur, r, ex.freshHeapVal(st, name, "hv", inner))
 		}
 		st.Heaps[name] = cur
 	}
@@ -333,6 +357,10 @@ func (ex *Exec) loopEnv(st *State, fr *Frame, lp *Loop) *Env {
 	if ex.fenv != nil && fr.Fn == ex.fn {
 		for k, v := range ex.fenv.vars {
 			env.vars[k] = v
+		}
+		env.bound = map[string]EV{}
+		for k, v := range ex.fenv.bound {
+			env.bound[k] = v
 		}
 	}
 	env.frame = fr
